@@ -70,8 +70,13 @@ def blocking_contracts(T: Types, reg: Registry, pid=PID):
 
     # ---------------- waiting_for_results
     def wfr_forward(c, seen):
+        """pointwise form of: waiting_for' = waiting_for[w := waiting_for.get(w, {}) | seen] (unchanged when seen is empty)"""
         w = c.arg("caller_invocation_id")
-        return wf(c) == z3.If(seen == EMPTY, wf0(c), z3.Store(wf0(c), w, WF.opt.some(ops.set_union(getset(wf0(c), w), seen))))
+        k, d, e = (z3.Const(fresh_name(n), ID.sort()) for n in "kde")
+        return z3.And(
+            z3.ForAll([k], z3.Implies(k != w, z3.Select(wf(c), k) == z3.Select(wf0(c), k))),
+            has(wf(c), w) == z3.Or(has(wf0(c), w), z3.Exists([e], z3.Select(seen, e))),
+            z3.ForAll([d], z3.Select(getset(wf(c), w), d) == z3.Or(z3.Select(getset(wf0(c), w), d), z3.Select(seen, d))))
 
     def wfr_reverse(c, seen):
         w = c.arg("caller_invocation_id")
@@ -157,6 +162,12 @@ def blocking_contracts(T: Types, reg: Registry, pid=PID):
         ])],
         properties=[pid])
     gbi.gen_distinct = True
+    # concrete pre-states (vacuity guard): a waits on b and c; c waits on d
+    G = {"waiting_for": {"a": ["b", "c"], "c": ["d"]}, "waited_by": {"b": ["a"], "c": ["a"], "d": ["c"]}, "_ready": ["b", "d"]}
+    wfr.witnesses = [{"fields": G, "args": {"caller_invocation_id": "b", "result_invocation_ids": ["d", "e"]}}]
+    rel.witnesses = [{"fields": G, "args": {"waited_invocation_id": "c"}}]
+    reg_rec = {k: {"status": "REGISTERED", "runner_id": None, "timestamp": 0.0} for k in "abcd"}
+    gbi.witnesses = [{"fields": dict(G, **{"app.orchestrator.rec": reg_rec}), "args": {"max_num_invocations": 1}}]
     out = [wfr, rel, gbi]
     for c in out:
         reg.add(c)
@@ -202,6 +213,9 @@ def wait_graph_histories(ctx: RunCtx) -> BoundedResult:
                     else:
                         bc.waiting_for.clear(); bc.waited_by.clear(); bc._ready.clear()
                     edges = set()
+                    finished = set()
+                    for i in invs:
+                        force_status(app, i, InvocationStatus.REGISTERED, None)
                     cases += 1
                     for k in seq:
                         op, arg = ops_[k]
@@ -210,12 +224,14 @@ def wait_graph_histories(ctx: RunCtx) -> BoundedResult:
                             bc.waiting_for_results(invs[w], [invs[d] for d in ds])
                             edges |= {(w, d) for d in ds}
                         else:
+                            # an invocation is released when it reaches a final status
+                            force_status(app, invs[arg], InvocationStatus.SUCCESS, None)
+                            finished.add(arg)
                             bc.release_waiters(invs[arg])
-                            edges = {(w, d) for (w, d) in edges if d != arg and (backend == "sqlite" or w != arg)}
-                            # Mem drops the finished invocation's own outgoing edges as well; SQLite keeps them (not observable
-                            # through the property: a finished invocation is never runnable)
-                        waiters = {w for w, _ in edges}
-                        expect = {invs[d] for _, d in edges if d not in waiters}
+                            edges = {(w, d) for (w, d) in edges if d != arg}
+                        # reference: waited on by a recorded edge, not itself waiting (finished waiters no longer wait), runnable
+                        waiters = {w for w, _ in edges if w not in finished}
+                        expect = {invs[d] for _, d in edges if d not in waiters and d not in finished}
                         for n in (0, 1, 2, 5):
                             got = list(bc.get_blocking_invocations(n))
                             ok = set(got) <= expect and len(got) == len(set(got)) and len(got) <= max(n, 0) and \
